@@ -125,3 +125,62 @@ func MinimizeProgram(p *Program, fails func(*Program) bool, budget int) *Program
 	}
 	return cur
 }
+
+// MinimizeQProgram is the delta debugging pass for queue programs.
+func MinimizeQProgram(p *QProgram, fails func(*QProgram) bool, budget int) *QProgram {
+	cur := p.Clone()
+	tries := 0
+	try := func(q *QProgram) bool {
+		if tries >= budget {
+			return false
+		}
+		tries++
+		if fails(q) {
+			cur = q
+			return true
+		}
+		return false
+	}
+	for changed := true; changed && tries < budget; {
+		changed = false
+		for chunk := len(cur.Steps) / 2; chunk >= 1; chunk /= 2 {
+			for i := len(cur.Steps) - chunk; i >= 0; i -= chunk {
+				if i+chunk > len(cur.Steps) || len(cur.Steps)-chunk < 1 {
+					continue
+				}
+				q := cur.Clone()
+				q.Steps = append(q.Steps[:i], q.Steps[i+chunk:]...)
+				if try(q) {
+					changed = true
+				}
+			}
+		}
+		for i := range cur.Steps {
+			for _, f := range []func(*QStep){
+				func(s *QStep) { s.A = s.A / 2 },
+				func(s *QStep) { s.A = s.A - 1 },
+				func(s *QStep) { s.A = 1 },
+			} {
+				if i >= len(cur.Steps) || cur.Steps[i].A <= 1 {
+					break
+				}
+				q := cur.Clone()
+				f(&q.Steps[i])
+				if q.Steps[i].A >= 1 && q.Steps[i].A != cur.Steps[i].A && try(q) {
+					changed = true
+				}
+			}
+		}
+		for _, f := range []func(*QConfig){
+			func(c *QConfig) { c.InitMeta = 0 },
+			func(c *QConfig) { c.WriteBuffer = 0 },
+		} {
+			q := cur.Clone()
+			f(&q.Cfg)
+			if string(q.JSON()) != string(cur.JSON()) && try(q) {
+				changed = true
+			}
+		}
+	}
+	return cur
+}
